@@ -266,10 +266,31 @@ func scenarioC10(r *Run) {
 				if r.Sim.IncDead(inc) {
 					return
 				}
-				s := g.SessionFixed(pl.p)
-				pl.p.SendMsg(pl.p.EstablishMsg(s))
-				r.Op("peer%d has a Session Establishment in flight", pl.p.Idx)
-				r.Probe("request-in-flight-at-teardown")
+				// (the kind is drawn when the event fires: the sessions must be known)
+				var live []*CPSession
+				for _, id := range sortedSessionIDs(pl.p) {
+					live = append(live, pl.p.Sessions[id])
+				}
+				switch k := r.Ch.Choose(3, "inflight-kind"); {
+				case k == 1 && len(live) > 0:
+					// a Session Report Response saying "session context not found" for a
+					// session the teardown is about to remove (or has just removed): the
+					// handler removes that session too - once, all in all
+					s := live[r.Ch.Choose(len(live), "inflight-sess")]
+					pl.p.SendMsg(message.NewSessionReportResponse(0, 0, s.UPSEID, uint32(1+r.Ch.Choose(1000, "srr-seq")), 0, ie.NewCause(ie.CauseSessionContextNotFound)))
+					r.Op("peer%d has a Session Report Response (session context not found, up=%d) in flight", pl.p.Idx, s.UPSEID)
+					r.Probe("report-response-in-flight-at-teardown")
+				case k == 2 && len(live) > 0:
+					s := live[r.Ch.Choose(len(live), "inflight-sess")]
+					pl.p.SendMsg(pl.p.DeleteMsg(s.UPSEID))
+					r.Op("peer%d has a Session Deletion (up=%d) in flight", pl.p.Idx, s.UPSEID)
+					r.Probe("deletion-in-flight-at-teardown")
+				default:
+					s := g.SessionFixed(pl.p)
+					pl.p.SendMsg(pl.p.EstablishMsg(s))
+					r.Op("peer%d has a Session Establishment in flight", pl.p.Idx)
+					r.Probe("request-in-flight-at-teardown")
+				}
 			})
 		}
 		if r.Ch.Choose(8, "down") == 1 && pl.trigger != "none" {
@@ -720,4 +741,13 @@ func scenarioC10UP4(r *Run) {
 	}
 	_ = o
 	r.CheckNoPanics("C10")
+}
+
+func sortedSessionIDs(p *Peer) []uint64 {
+	var ids []uint64
+	for id := range p.Sessions {
+		ids = append(ids, id)
+	}
+	sortU64(ids)
+	return ids
 }
